@@ -256,10 +256,10 @@ theorem shifted_range_origin_apply (A B : Aff) (diff : List Rat) (nm : String) (
       ∀ x, B.apply x = (List.range A.nout).map fun i => (A.apply x).getD i 0 + d.getD i 0 :=
   shiftedRange_apply' hA h
 
-/-- for float64 / object maps and a vector of the right length the assignment
+/-- for floating, complex and object maps and a vector of the right length the assignment
     rules change nothing: `d = diff` -/
-theorem bcastInto_exact (n : Nat) (dt : DType) (d : List Rat) (hl : d.length = n) (hdt : dt ≠ .i8) :
-    bcastInto n dt d = .ok d := by
+theorem bcastInto_exact (n : Nat) (dt : DType) (d : List Rat) (hl : d.length = n)
+    (hdt : dt.isInt = false) : bcastInto n dt d = .ok d := by
   unfold bcastInto
   simp [hl, hdt]
 
@@ -267,8 +267,8 @@ theorem bcastInto_exact (n : Nat) (dt : DType) (d : List Rat) (hl : d.length = n
 
 /-- Clause "appending … an orthogonal axis leaves the remaining axes' mapping
     untouched": `append_io_dim(A, i, o, start, step)(x ++ [t]) = A(x) ++ [step·t + start]`. -/
-theorem append_keeps_rest (A B : Aff) (i o : String) (start step : Rat)
-    (h : appendIoDim A i o start step = .ok B) (x : List Rat) (t : Rat) (hx : x.length = A.nin) :
+theorem append_keeps_rest (A B : Aff) (i o : String) (start step : Rat) (mdt : DType)
+    (h : appendIoDim A i o start step mdt = .ok B) (x : List Rat) (t : Rat) (hx : x.length = A.nin) :
     B.apply (x ++ [t]) = A.apply x ++ [step * t + start] ∧
     B.dom.names = A.dom.names ++ [i] ∧ B.rng.names = A.rng.names ++ [o] ∧ B.bottomExact :=
   appendIoDim_apply' h x t hx
@@ -280,31 +280,6 @@ theorem drop_refuses (A : Aff) (ax : Key) (fz : Bool) (ornts : List (Option Nat)
     (horth : orthAxes A.aff A.nout A.nin i o fz = false) :
     dropIoDim A ax fz ornts = .error .axisError :=
   dropIoDim_refuses' hio horth
-
-/-- Partial (matrix level only): when `drop_io_dim` succeeds its matrix is the
-    old matrix with row `o` and column `i` deleted — every remaining entry is
-    untouched.  Missing for the full clause: the function-level statement
-    `B(x) = A(x with any value inserted at i)` minus coordinate `o` under exact
-    orthogonality, and the tie of `ornts` to nibabel's `io_orientation`
-    (a parameter; checked by the correspondence and the oracle on the real code). -/
-theorem drop_keeps_entries_partial (A B : Aff) (ax : Key) (fz : Bool) (ornts : List (Option Nat))
-    (h : dropIoDim A ax fz ornts = .ok B) :
-    ∃ i o, ioAxisIndices A ax ornts = .ok (i, o) ∧
-      ∀ r c, r ≤ B.nout → c ≤ B.nin → B.aff.get r c = A.aff.get (skipIdx o r) (skipIdx i c) := by
-  unfold dropIoDim at h
-  cases hio : ioAxisIndices A ax ornts with
-  | error e => rw [hio] at h; cases h
-  | ok p =>
-      obtain ⟨i, o⟩ := p
-      rw [hio] at h
-      simp only at h
-      split_ifs at h with hbad
-      obtain ⟨_, _, m3, _, _, m6, _⟩ := mkAff_ok h
-      obtain ⟨m4, m5⟩ := mkAff_nin h
-      obtain ⟨e1, e2⟩ := shapeOK_mkMat _ (Nat.succ_pos _) m6
-      refine ⟨i, o, rfl, fun r c hr hc => ?_⟩
-      rw [m3, get_mkMat _ (by omega) (by omega)]
-
 
 /-! ## Non-vacuity: concrete objects meeting the hypotheses -/
 
